@@ -326,10 +326,6 @@ func (p *Prog) FlagTable() []FlagReg {
 				if len(args) < 4 {
 					continue
 				}
-				fa, ok := args[1].(*ssa.FieldAddr)
-				if !ok {
-					continue
-				}
 				name, ok := constString(args[2])
 				if !ok {
 					continue
@@ -342,7 +338,20 @@ func (p *Prog) FlagTable() []FlagReg {
 				if k, ok := stripConv(args[di]).(*ssa.Const); ok {
 					def = k.Value
 				}
-				flagCache = append(flagCache, FlagReg{Field: fieldObj(fa), Name: name, Default: def, Method: m, Call: c})
+				switch tgt := args[1].(type) {
+				case *ssa.FieldAddr:
+					flagCache = append(flagCache, FlagReg{Field: fieldObj(tgt), Name: name, Default: def, Method: m, Call: c})
+				case *ssa.Parameter:
+					// registration helper: the target is the field address passed by each caller
+					idx := paramIndex(fn, tgt)
+					for _, cs := range p.CallSites(fn) {
+						if idx >= 0 && idx < len(cs.Common().Args) {
+							if fa, ok := cs.Common().Args[idx].(*ssa.FieldAddr); ok {
+								flagCache = append(flagCache, FlagReg{Field: fieldObj(fa), Name: name, Default: def, Method: m, Call: c})
+							}
+						}
+					}
+				}
 			}
 		}
 	}
